@@ -33,6 +33,7 @@ RULE = ('one evaluation = one sampled cache (Cache or FanoutCache shards; 4-14 i
 RULE += ' ' + 'Unknown files also get hidden (dot-prefixed, .nfs), backup (~) names and hidden directories; two damage subsets of one seed in 23 run in child interpreters started with -W ignore and -W error::UserWarning.'
 RULE += ' ' + 'Directory spellings include a symbolic link to the real directory.'
 RULE += ' ' + "Directory spellings include '~/name' and '$VAR/name'; unknown files include copies of a live value file under its own name in another directory."
+RULE += ' ' + 'One cache in seven holds a symbolic link to a directory elsewhere: nothing behind it is reported or touched.'
 ASSUMPTIONS = ['damage is applied while no operation is in flight', 'truncation of text happens on a code-point boundary and extension appends ASCII, except in the low-rate probe of known finding F14']
 PROBES = ('damage_items', 'fanout_runs', 'rows_removed_by_fix', 'f14_probe', 'dir_spelled_dot', 'dir_spelled_double', 'dir_spelled_trailing', 'dir_spelled_dotdot', 'dir_spelled_relative', 'dir_spelled_symlink', 'dir_spelled_tilde', 'dir_spelled_envvar', 'unknown_named_like_value_file', 'link_to_outside_directory', 'more_than_100_file_rows', 'journal_mode_not_wal', 'mass_loss', 'unknown_hidden_name')
 TECHNIQUE = 'deterministic simulation with out-of-band damage injection: damage-kind subsets enumerated per sampled cache; report / convergence / undamaged-intact oracle with an independent auditor'
